@@ -333,6 +333,29 @@ theorem measured_until_reset (st st' : EState) (q : Int) (p p' : P) :
          if_false, ge_iff_le] at h ⊢
        exact h)⟩
 
+open BlochVerif BlochVerif.Eval BlochVerif.Parse in
+/-- the register a whole run hands back — whatever the program, the draws, the switches and the fuel, normal end or error —
+carries exactly one measured flag per qubit (the agreement invariant, read off at the end of `execute`) -/
+theorem a_run_ends_with_one_flag_per_qubit (prog : Program) (draws : List Float) (e l : Bool) (fuel : Nat) :
+    (execute prog draws e l fuel).sim.measured.size = (execute prog draws e l fuel).sim.n := by
+  have h0 : Agree (startState prog draws e l) := flags_agree_at_program_start prog draws e l
+  unfold execute
+  dsimp only
+  split
+  · rfl
+  · split
+    · rename_i st hrun
+      split at hrun
+      · rename_i fn _
+        obtain ⟨v, st1, h1, h2⟩ := run_bind_ok hrun
+        rw [run_pure] at h2
+        cases h2
+        exact (flags_agree_after_every_call fuel fn [] _ _ v h0 h1).flags
+      · rw [run_pure] at hrun
+        cases hrun
+        rfl
+    · rfl
+
 /-! ### non-vacuity -/
 example : firstRefused [false, false] [.gate 0, .measure 0, .gate 1, .reset 0, .gate 0, .measureArr [0, 1], .cx 1 0] 0 = some 6 := by
   decide
